@@ -244,7 +244,7 @@ def run(ck):
     ck.canary("S->C: unsupported key type expected to be listed", compare_cfg(c, cbyvec[c["vec"]][0]) is not None)
 
     # ------------------------------------------------------------------ C->S
-    shards = 2 if ck.thorough else 1
+    shards = 2
 
     def drive(t):
         part, i = t
@@ -297,7 +297,7 @@ def run(ck):
                 if not ok:
                     ck.report("X06:ParseConfig:%s" % nt[0], "recorded reading is not one NetConfig admits: %s" % json.dumps(e)[:1200], dict(rp, index=j))
                 else:
-                    good_cfg.append(e)
+                    good_cfg.append(dict(e, _cls=nt[0]))
                     if nt[0] == "lax" and e["err"] == "":
                         for srv in e["servers"]:
                             if any(o[1] == srv[3] for o in e["out"]) and not (-2 ** 31 <= int(srv[0]) < 2 ** 32 and 0 <= int(srv[1]) < 65536):
@@ -363,13 +363,13 @@ def run(ck):
     cc = []
 
     def cmut(nm, pred, f):
-        c = next((copy.deepcopy(e) for e in good_cfg if pred(e)), None)
+        c = next(({k: copy.deepcopy(x) for k, x in e.items() if k != "_cls"} for e in good_cfg if pred(e)), None)
         if c is None:
             if not ck.violations:
                 raise Infra("no accepted reading for canary '%s'" % nm)
             return
         f(c); cc.append(("C->S: " + nm, c))
-    listed = lambda e: e["err"] == "" and len(e["out"]) >= 2
+    listed = lambda e: e["err"] == "" and len(e["out"]) >= 2 and e["_cls"] == "ok"        # every server of the file is decided
     cmut("control", listed, lambda c: None)
     cmut("one octet of a logged host altered", listed, lambda c: c["out"][0].__setitem__(0, ("9" + c["out"][0][0]) if not c["out"][0][0].startswith("9") else c["out"][0][0][1:]))
     cmut("logged key altered", listed, lambda c: c["out"][1].__setitem__(1, "A" + c["out"][1][1][1:] if c["out"][1][1][0] != "A" else "B" + c["out"][1][1][1:]))
